@@ -47,7 +47,20 @@ func checkC04(c *fw.Ctx) {
 		fn := ctors[short]
 		n++
 		checkUntrustedCtor(c, short, fn)
-		keys, nonConst := constStringArgs(fn, fw.NameIs("github.com/tidwall/sjson.DeleteBytes"), 1)
+		// the keys stripped from the input before it is decoded: walk back from the bytes given
+		// to json.Unmarshal to the constructor's eventJSON parameter
+		keys := map[string]bool{}
+		nonConst, nUm := 0, 0
+		for _, u := range fw.CallsTo(fn, false, fw.NameIs("encoding/json.Unmarshal")) {
+			nUm++
+			k, nc, _, okOrigin := strippedChain(u.Common().Args[0], func(v ssa.Value) bool { return isParam(v, fn, 0) }, nil)
+			nonConst += nc
+			for x := range k {
+				keys[x] = true
+			}
+			c.Check(okOrigin, "4 siblings", short+" decodes its input minus the stripped keys", c.P.Pos(u.Pos()), "", "the bytes decoded into the event do not derive from the eventJSON parameter through key deletions only")
+		}
+		c.Check(nUm > 0, "4 siblings", short+" decodes the stripped input with json.Unmarshal", c.P.Pos(fn.Pos()), "", "no json.Unmarshal of the stripped input found in the constructor")
 		c.Check(nonConst == 0, "4 siblings", short+" strips only constant keys", c.P.Pos(fn.Pos()), "", "a key is deleted under a non-constant name")
 		stripped[short] = keys
 	}
